@@ -1,29 +1,12 @@
-import Gonuts.Lemmas.Spend
+import Gonuts.Lemmas.SpendExamples
 /-!
   C13 — HTLC locks (NUT-14).  Model: `Model.Spend` (the repaired code: F6 "always remove the matched key",
   F8 "AddWitnessHTLCToOutputs hex-decodes B_"); specification: `Spec.Spendable.spendableHTLC`.
   For ALL inputs: unbounded lists, any `valid`, any `sha256hex`, any `now`.
 -/
 namespace Gonuts.Props.C13
-open Gonuts.Model.Spend Gonuts.Spec.Spendable Gonuts.Lemmas.Spend
+open Gonuts.Model.Spend Gonuts.Spec.Spendable Gonuts.Lemmas.Spend Gonuts.Lemmas.SpendExamples.C13
 
-/-! ## concrete values: keys 1 ("K1"), 2 ("K2"); `sign k m = 100*k + m`; 912 = a second signature string of key 1 on digest 7;
-    the preimage "ab" (one byte 0xab) hashes to the 64-character lock value `xHash`. -/
-def xSign : Key → Msg → Sig := fun k m => 100 * k + m
-def xValid : Sig → Key → Msg → Bool := fun (s k m : Nat) => s == 100 * k + m || (s == 912 && k == 1 && m == 7)
-def xHash : String := "HASHHASHHASHHASHHASHHASHHASHHASHHASHHASHHASHHASHHASHHASHHASHHASH"
-def xEnv : Env where
-  valid := xValid
-  parseKey := fun s => if s = "K1" then some 1 else if s = "K2" then some 2 else none
-  sha256hex := fun b => if b = [0xab] then xHash else "e3b0"
-  now := 1000
-theorem xSign_valid (k : Key) (m : Msg) : xEnv.valid (xSign k m) k m = true := by simp [xEnv, xValid, xSign]
-theorem xOpens : Opens xEnv "ab" xHash := ⟨by decide, [0xab], by decide, by decide⟩
-theorem xValid_unique_aux (s k k' m : Nat) (h1 : xValid s k m = true) (h2 : xValid s k' m = true) : k = k' := by
-  simp [xValid] at h1 h2
-  rcases h1 with h1 | ⟨⟨h1, h1'⟩, h1''⟩ <;> rcases h2 with h2 | ⟨⟨h2, h2'⟩, h2''⟩ <;> omega
-theorem xValid_unique (m : Msg) (keys : List Key) : UniqueSigner xValid m keys :=
-  fun s k k' _ _ h1 h2 => xValid_unique_aux s k k' m h1 h2
 /-- hash lock, signers K1 K2, threshold 2, future locktime, refund key K2 -/
 def xSecret : Secret := { kind := .htlc, data := xHash, tags := [["n_sigs", "2"], ["pubkeys", "K1", "K2"], ["locktime", "5000"], ["refund", "K2"]] }
 def xProof : Proof := { secret := some xSecret, msg := 7, witness := { jsonOk := true, signatures := [xSign 2 7, xSign 1 7], preimage := "AB" } }
